@@ -1,7 +1,7 @@
 (* C10 — soundness of the parser model on the expression core: whatever it accepts
    is the print of a well-formed derivation tree of the documented grammar, and
    the returned tree is the one the documentation prescribes for it.
-   Core token lists: no newline, no list / struct literal, no trailing comma. *)
+   Core token lists: no newline, no trailing comma. *)
 From Coq Require Import List NArith ZArith Bool Arith Lia.
 From NV Require Import Syntax.Token Syntax.Ast Syntax.StrEsc Syntax.Parser Syntax.Grammar
      Syntax.ParserProofs.
@@ -11,10 +11,12 @@ Local Arguments Nat.leb : simpl never.
 Local Arguments Nat.ltb : simpl never.
 
 Definition coretok (t : token) : bool :=
-  match t with TNewline | TLBracket | TLCurly => false | _ => true end.
+  match t with TNewline => false | _ => true end.
 Fixpoint notrail (ts : list token) : bool :=
   match ts with
   | TComma :: ((TRParen :: _) as r) => false
+  | TComma :: ((TRBracket :: _) as r) => false
+  | TComma :: ((TRCurly :: _) as r) => false
   | _ :: r => notrail r
   | [] => true
   end.
@@ -24,7 +26,7 @@ Lemma core_tail : forall t r, core (t :: r) = true -> core r = true.
 Proof.
   intros t r H. unfold core in *. simpl in H. apply andb_prop in H. destruct H as [H1 H2].
   apply andb_prop in H1. destruct H1 as [_ H1]. rewrite H1. simpl.
-  destruct t; try exact H2. destruct r as [|t2 r2]; [reflexivity|]. destruct t2; try exact H2. discriminate.
+  destruct t; try exact H2. destruct r as [|t2 r2]; [reflexivity|]. destruct t2; try exact H2; discriminate.
 Qed.
 
 Lemma core_app_r : forall a b, core (a ++ b) = true -> core b = true.
@@ -37,6 +39,10 @@ Lemma core_skip : forall ts, core ts = true -> skip_empty_lines ts = ts.
 Proof. intros [|t r] H; [reflexivity|]. apply core_head in H. destruct t; try reflexivity. discriminate. Qed.
 
 Lemma core_notrail : forall r, core (TComma :: TRParen :: r) = true -> False.
+Proof. intros r H. unfold core in H. apply andb_prop in H. destruct H as [_ H]. simpl in H. discriminate. Qed.
+Lemma core_notrail_b : forall r, core (TComma :: TRBracket :: r) = true -> False.
+Proof. intros r H. unfold core in H. apply andb_prop in H. destruct H as [_ H]. simpl in H. discriminate. Qed.
+Lemma core_notrail_c : forall r, core (TComma :: TRCurly :: r) = true -> False.
 Proof. intros r H. unfold core in H. apply andb_prop in H. destruct H as [_ H]. simpl in H. discriminate. Qed.
 
 (* after a tree that ends at call level the parser has looked at the next token: it is
@@ -197,6 +203,133 @@ Section Levels.
     inversion H; subst. exists []. repeat split; reflexivity.
   Qed.
 
+  Lemma pr_args_head : forall more X Y, forallb wf more = true ->
+    pr_args more ++ X = TRBracket :: Y -> more = [].
+  Proof.
+    intros [|a r] X Y W H; [reflexivity|]. simpl in W. apply andb_prop in W. destruct W as [Wa _].
+    destruct (pr_first a Wa) as (tok & ra & E & Fi & _). rewrite pr_args_cons, E in H. simpl in H.
+    inversion H; subst. discriminate.
+  Qed.
+
+  Lemma tailp_cons_args : forall b r, tailp (b :: r) = TComma :: pr_args (b :: r).
+  Proof. intros b r. rewrite pr_args_cons. reflexivity. Qed.
+
+  Lemma list_loop_step : forall n els tok r,
+    (match tok with TRBracket => False | _ => True end) ->
+    list_loop ex (S n) els (tok :: r) =
+    bind (ex (skip_empty_lines (tok :: r))) (fun e rest =>
+      match skip_empty_lines rest with
+      | TComma :: r' => list_loop ex n (els ++ [e]) (skip_empty_lines r')
+      | TRBracket :: r' => list_loop ex n (els ++ [e]) (skip_empty_lines (TRBracket :: r'))
+      | _ => Err ExpectedCommaOrRightBracketInList
+      end).
+  Proof. intros n els tok r H. destruct tok; try reflexivity. contradiction. Qed.
+
+  Lemma list_loop_sound : forall n tels ts e rest,
+    core ts = true -> forallb wf tels = true ->
+    list_loop ex n (map desugar tels) ts = Ok e rest ->
+    exists more, forallb wf more = true /\ e = EList (map desugar (tels ++ more))
+                 /\ ts = pr_args more ++ TRBracket :: rest.
+  Proof.
+    induction n; intros tels ts e rest C W H; [discriminate|].
+    destruct ts as [|tok r]; [simpl in H|].
+    - (* the element parser on the empty list *)
+      apply bind_ok in H. destruct H as (e1 & r1 & E & _).
+      destruct (Hex [] e1 r1 eq_refl E) as (t & Wt & _ & Et).
+      destruct (pr_first t Wt) as (tk & rt & Ep & _). rewrite Ep in Et. discriminate.
+    - assert (Step : (match tok with TRBracket => False | _ => True end) ->
+        exists more, forallb wf more = true /\ e = EList (map desugar (tels ++ more))
+                     /\ tok :: r = pr_args more ++ TRBracket :: rest).
+      { intros Htok. rewrite list_loop_step in H by exact Htok. rewrite (core_skip _ C) in H.
+        apply bind_ok in H. destruct H as (e1 & r1 & E & H).
+        destruct (Hex _ e1 r1 C E) as (t & Wt & Dt & Et).
+        assert (Cr1 : core r1 = true) by (apply (core_app_r (pr t)); rewrite <- Et; exact C).
+        rewrite (core_skip r1 Cr1) in H.
+        assert (W' : forallb wf (tels ++ [t]) = true) by (rewrite forallb_app, W; simpl; rewrite Wt; reflexivity).
+        destruct r1 as [|t1 r1']; [discriminate|].
+        destruct t1; try discriminate.
+        - (* TRBracket *)
+          assert (H' : list_loop ex n (map desugar (tels ++ [t])) (TRBracket :: r1') = Ok e rest).
+          { rewrite map_app. simpl. rewrite Dt. exact H. }
+          destruct (IHn (tels ++ [t]) _ e rest Cr1 W' H') as (more & Wm & Em & Tm).
+          assert (more = []) by (eapply pr_args_head; [exact Wm|symmetry; exact Tm]). subst more.
+          simpl in Tm. inversion Tm; subst. exists [t]. conj.
+          + simpl. rewrite Wt. reflexivity.
+          + rewrite app_nil_r. reflexivity.
+          + rewrite Et. simpl. rewrite app_nil_r. reflexivity.
+        - (* TComma *)
+          assert (Cr1' : core r1' = true) by (eapply core_tail; eauto).
+          rewrite (core_skip r1' Cr1') in H.
+          assert (H' : list_loop ex n (map desugar (tels ++ [t])) r1' = Ok e rest).
+          { rewrite map_app. simpl. rewrite Dt. exact H. }
+          destruct (IHn (tels ++ [t]) r1' e rest Cr1' W' H') as (more & Wm & Em & Tm).
+          destruct more as [|b more'].
+          + simpl in Tm. subst r1'. exfalso. eapply core_notrail_b. exact Cr1.
+          + exists (t :: b :: more'). conj.
+            * simpl. rewrite Wt. simpl in Wm. rewrite Wm. reflexivity.
+            * rewrite Em. rewrite <- app_assoc. reflexivity.
+            * rewrite Et, Tm. rewrite (pr_args_cons t (b :: more')), tailp_cons_args.
+              rewrite <- !app_assoc. reflexivity. }
+      destruct tok; try (apply Step; exact I).
+      simpl in H. inversion H; subst. exists []. rewrite app_nil_r. conj; reflexivity.
+  Qed.
+
+  Lemma pr_fields_head : forall more X Y, pr_fields more ++ X = TRCurly :: Y -> more = [].
+  Proof. intros [|[f a] r] X Y H; [reflexivity|]. simpl in H. discriminate. Qed.
+
+  Lemma struct_loop_sound : forall n name tfs ts e rest,
+    core ts = true -> forallb (fun fe => wf (snd fe)) tfs = true ->
+    struct_loop ex n name (map (fun fe => (fst fe, desugar (snd fe))) tfs) ts = Ok e rest ->
+    exists more, forallb (fun fe => wf (snd fe)) more = true
+                 /\ e = EStruct name (map (fun fe => (fst fe, desugar (snd fe))) (tfs ++ more))
+                 /\ ts = pr_fields more ++ TRCurly :: rest.
+  Proof.
+    induction n; intros name tfs ts e rest C W H; [discriminate|].
+    destruct ts as [|tok r]; [simpl in H; discriminate|].
+    destruct tok; try (simpl in H; discriminate).
+    - (* TRCurly *) simpl in H. inversion H; subst. exists []. rewrite app_nil_r. conj; reflexivity.
+    - (* TIdent *)
+      simpl in H. assert (Cr : core r = true) by (eapply core_tail; eauto).
+      rewrite (core_skip r Cr) in H.
+      destruct r as [|t2 r2]; [discriminate|]. destruct t2; try discriminate.
+      assert (Cr2 : core r2 = true) by (eapply core_tail; eauto).
+      rewrite (core_skip r2 Cr2) in H.
+      apply bind_ok in H. destruct H as (e1 & r3 & E & H).
+      destruct (Hex r2 e1 r3 Cr2 E) as (t & Wt & Dt & Et).
+      assert (Cr3 : core r3 = true) by (apply (core_app_r (pr t)); rewrite <- Et; exact Cr2).
+      rewrite (core_skip r3 Cr3) in H.
+      assert (W' : forallb (fun fe => wf (snd fe)) (tfs ++ [(name0, t)]) = true)
+        by (rewrite forallb_app, W; simpl; rewrite Wt; reflexivity).
+      destruct r3 as [|t3 r3']; [discriminate|]. destruct t3; try discriminate.
+      + (* TRCurly *)
+        assert (H' : struct_loop ex n name (map (fun fe => (fst fe, desugar (snd fe))) (tfs ++ [(name0, t)]))
+                       (TRCurly :: r3') = Ok e rest).
+        { rewrite map_app. simpl. rewrite Dt. exact H. }
+        destruct (IHn name _ _ e rest Cr3 W' H') as (more & Wm & Em & Tm).
+        assert (more = []) by (eapply pr_fields_head; symmetry; exact Tm). subst more.
+        simpl in Tm. inversion Tm; subst. exists [(name0, t)]. conj.
+        * simpl. rewrite Wt. reflexivity.
+        * rewrite app_nil_r. reflexivity.
+        * simpl. rewrite app_nil_r. reflexivity.
+      + (* TComma *)
+        assert (Cr3' : core r3' = true) by (eapply core_tail; eauto).
+        rewrite (core_skip r3' Cr3') in H.
+        assert (H' : struct_loop ex n name (map (fun fe => (fst fe, desugar (snd fe))) (tfs ++ [(name0, t)]))
+                       r3' = Ok e rest).
+        { rewrite map_app. simpl. rewrite Dt. exact H. }
+        destruct (IHn name _ r3' e rest Cr3' W' H') as (more & Wm & Em & Tm).
+        destruct more as [|[g b] more'].
+        * simpl in Tm. subst r3'. exfalso. eapply core_notrail_c. exact Cr3.
+        * exists ((name0, t) :: (g, b) :: more'). conj.
+          -- simpl. rewrite Wt. simpl in Wm. rewrite Wm. reflexivity.
+          -- rewrite Em. rewrite <- app_assoc. reflexivity.
+          -- rewrite Et, Tm.
+             change (pr_fields ((name0, t) :: (g, b) :: more'))
+               with (TIdent name0 :: TColon :: pr t ++ TComma :: pr_fields ((g, b) :: more')).
+             cbn [app]. rewrite <- app_assoc. reflexivity.
+  Qed.
+
+  Opaque list_loop struct_loop.
   Lemma primary_sound : forall ts e rest, core ts = true -> primary ex ts = Ok e rest ->
     exists t, wf t = true /\ 16 <= lvl t /\ desugar t = e /\ ts = pr t ++ rest.
   Proof.
@@ -208,6 +341,12 @@ Section Levels.
       destruct (Hex r inner r1 (core_tail _ _ C) E) as (t & Wt & Dt & Et).
       destruct r1 as [|t2 r2]; [discriminate|]. destruct t2; try discriminate. inversion H; subst.
       exists (SParen t). repeat split; auto. simpl. rewrite <- app_assoc. reflexivity.
+    - (* TLBracket *)
+      assert (Cr : core r = true) by (eapply core_tail; eauto).
+      rewrite (core_skip r Cr) in H.
+      destruct (list_loop_sound _ [] r e rest Cr eq_refl H) as (more & Wm & Em & Tm).
+      exists (SList more). conj; [exact Wm|simpl; lia|rewrite Em; reflexivity|].
+      rewrite pr_list. cbn [app]. rewrite <- app_assoc. cbn [app]. rewrite <- Tm. reflexivity.
     - inversion H; subst. exists SHole. repeat split; auto.
     - inversion H; subst. exists (SBool true). repeat split; auto.
     - inversion H; subst. exists (SBool false). repeat split; auto.
@@ -219,10 +358,16 @@ Section Levels.
       inversion H; subst. exists (SBased base lexeme). repeat split; auto. simpl. rewrite O. reflexivity.
     - destruct r as [|t2 r2].
       + inversion H; subst. exists (SIdent name). repeat split; auto.
-      + assert (Ct : coretok t2 = true) by (eapply core_head; eapply core_tail; eauto).
-        destruct t2; try discriminate; inversion H; subst; exists (SIdent name); repeat split; auto.
+      + destruct t2; try (inversion H; subst; exists (SIdent name); repeat split; auto; fail).
+        assert (Cr2 : core r2 = true) by (eapply core_tail; eapply core_tail; eauto).
+        rewrite (core_skip r2 Cr2) in H.
+        destruct (struct_loop_sound _ name [] r2 e rest Cr2 eq_refl H) as (more & Wm & Em & Tm).
+        exists (SStruct name more). conj; [exact Wm|simpl; lia|rewrite Em; reflexivity|].
+        rewrite pr_struct. cbn [app]. rewrite <- app_assoc. cbn [app]. rewrite <- Tm. reflexivity.
     - inversion H; subst. exists (SStr lexeme). repeat split; auto.
   Qed.
+
+  Transparent list_loop struct_loop.
 
   (* loops: `ta` is the tree read so far *)
   Lemma call_loop_sound : forall n ta ts e rest,
